@@ -154,6 +154,17 @@ def match_finding(pid, v, findings):
             continue
         if 'msg_prefix' in f and not v['msg'].startswith(f['msg_prefix']):
             continue
+        if 'msg_regex' in f and not re.search(f['msg_regex'], v['msg'], re.S):
+            continue
+        ca = f.get('choices_at')
+        if ca is not None:
+            ok = True
+            for idx, allowed in ca.items():
+                k = int(idx)
+                if k >= len(v['choices']) or v['choices'][k] not in allowed:
+                    ok = False
+            if not ok:
+                continue
         cp = f.get('choices_prefix')
         if cp is not None and v['choices'][:len(cp)] != cp:
             continue
